@@ -491,9 +491,14 @@ func (css *Consensus) batchWorker() {
 			logger.Debugf("batch commit (size): %d items", maxSize)
 
 			// Stop timer and commit. Leave ready to reset on next
-			// item.
+			// item. The channel may have been drained already
+			// (when a previous commit on max age failed), so
+			// never block here.
 			if !batchTimer.Stop() {
-				<-batchTimer.C
+				select {
+				case <-batchTimer.C:
+				default:
+				}
 			}
 			batchCurSize = 0
 
@@ -501,6 +506,9 @@ func (css *Consensus) batchWorker() {
 			// Commit
 			if err := css.batchingState.Commit(css.ctx); err != nil {
 				logger.Errorf("error commiting batch after reaching max age: %s", err)
+				// The items are still in the batch: try
+				// again after another maxAge.
+				batchTimer.Reset(maxAge)
 				continue
 			}
 			logger.Debugf("batch commit (max age): %d items", batchCurSize)
